@@ -470,13 +470,88 @@ def two_cases(rng, tier):
         yield 'file', datas, [], [], list(bits), True, 'old'
 
 
+KERNEL_CHILD = r'''
+import os, resource, signal, sys
+sys.path.insert(0, sys.argv[1])
+kind, d, limit, dname = sys.argv[2], sys.argv[3], int(sys.argv[4]), sys.argv[5]
+sys.path.insert(0, sys.argv[6])
+from props import c13
+from pysmi import error
+w = c13.make_writer(kind, d, False)
+signal.signal(signal.SIGXFSZ, signal.SIG_IGN)
+resource.setrlimit(resource.RLIMIT_FSIZE, (limit, limit))
+try:
+    w.putData(c13.MIB, c13.DATA[dname])
+    print('ok')
+except error.PySmiWriterError:
+    print('writerError')
+except BaseException as e:
+    print('other:' + type(e).__name__)
+'''
+
+
+def kernel_put(kind, dname, limit, dest):
+    """putData in a child process whose files cannot grow beyond `limit` octets (RLIMIT_FSIZE): the kernel itself
+    cuts a write short and fails the next one - no proxy stands between the writer and the system calls."""
+    import subprocess
+    import sys
+    from common import REPO
+    from pysmi.compat import encode
+    base = scratch_dir()
+    d = os.path.join(base, 'out')
+    try:
+        os.makedirs(d)
+        if dest == 'old':
+            with open(os.path.join(d, dest_name(kind)), 'wb') as f:
+                f.write(OLD)
+        here = os.path.dirname(os.path.dirname(os.path.abspath(__file__)))
+        r = subprocess.run([sys.executable, '-c', KERNEL_CHILD, REPO, kind, d, str(limit), dname, here],
+                           stdout=subprocess.PIPE, stderr=subprocess.PIPE, universal_newlines=True, timeout=120)
+        out = r.stdout.strip() or ('crash:' + r.stderr.strip()[-200:])
+        dst, tmps, de = observe(d, kind, {0: encode(DATA[dname])})
+        return {'res': out, 'dest': dst, 'tmps': tmps}
+    finally:
+        shutil.rmtree(base, ignore_errors=True)
+
+
+def kernel_failures(case, impl):
+    kind, dname, limit, dest = case
+    from pysmi.compat import encode
+    n = len(encode(DATA[dname]))
+    want_dest = ['data', 0, n] if impl['res'] == 'ok' else ('old' if dest == 'old' else 'absent')
+    out = []
+    if impl['res'] not in ('ok', 'writerError'):
+        out.append(('kernel-limit', 'putData under a file-size limit of %d octets ended with %s' % (limit, impl['res'])))
+    elif impl['dest'] != want_dest:
+        out.append(('kernel-limit', 'putData of %d octets under a file-size limit of %d returned %s and left the destination %r (expected %r)' % (
+            n, limit, impl['res'], impl['dest'], want_dest)))
+    elif impl['res'] == 'ok' and limit < n:
+        out.append(('kernel-limit', 'putData reported success although only %d of %d octets can have been stored' % (limit, n)))
+    if impl['tmps']:
+        out.append(('kernel-limit-temp', 'temporary file left behind: %r' % (impl['tmps'],)))
+    return out
+
+
+def kernel_cases(tier):
+    from pysmi.compat import encode
+    for kind in ('file', 'py'):
+        for dname in ('ascii', 'nonascii', 'large'):
+            n = len(encode(DATA[dname]))
+            limits = sorted({1, n // 2, n - 1, n, n + 100} if tier == 'quick' else {1, 2, n // 3, n // 2, n - 2, n - 1, n, n + 1, n + 100})
+            for limit in limits:
+                for dest in ('fresh', 'old'):
+                    yield kind, dname, limit, dest
+
+
 def run(ctx):
     res = ctx.res
     res.rule = ('single writer: every faultable call site (makedirs, mkstemp, write, close, rename, unlink, py_compile) x fault kind '
                 '(error, soft) x {dir missing, fresh, existing destination} x data {empty, ascii, non-ascii, large} x both writers, '
                 'plus short-write patterns (1-3 consecutive short writes, optionally followed by an error) and dry-run; two writers: '
                 'random schedules with random fault scripts and all 2^6 (quick) / 2^8 (thorough) schedule prefixes, executed with two '
-                'real threads handed control at each proxied call; non-trivial = at least one injected fault or two writers')
+                'real threads handed control at each proxied call; the writers in a child process under a kernel file-size limit '
+                '(RLIMIT_FSIZE below, at and above the length of the text: a genuinely short write followed by EFBIG); '
+                'non-trivial = at least one injected fault or two writers')
     reqs, metas = [], []
     for case in single_cases(ctx.tier):
         kind, dname, pyc, dry, faults, dir_exists, dest = case
@@ -507,6 +582,16 @@ def run(ctx):
         reqs.append({'op': 'put2', 'k0': kind, 'k1': kind, 'l0': len(datas[0]), 'l1': len(datas[1]), 'fa': fa, 'fb': fb,
                      'sched': sched, 'dirExists': dir_exists, 'dest': dest})
         metas.append(('two', case, impl))
+    # the same faults produced by the kernel (no proxy): a file-size limit cuts a write short and fails the next one
+    from concurrent.futures import ThreadPoolExecutor
+    kc = list(kernel_cases(ctx.tier))
+    with ThreadPoolExecutor(max_workers=8) as ex:
+        kouts = list(ex.map(lambda c: kernel_put(*c), kc))
+    for case, impl in zip(kc, kouts):
+        res.case(('kernel',) + case, True)
+        res.count('kernel-limit:' + impl['res'])
+        for key, what in kernel_failures(case, impl):
+            res.oracle_failures.append({'key': key, 'what': what, 'input': {'kernel': list(case)}})
     if ctx.model is not None:
         outs = ctx.model.batch(reqs)
         for (tag, case, impl), out in zip(metas, outs):
@@ -536,6 +621,11 @@ def search(ctx):
 
 def replay(payload):
     inp = payload['input']
+    if 'kernel' in inp:
+        case = tuple(inp['kernel'])
+        impl = kernel_put(*case)
+        fails = kernel_failures(case, impl)
+        return {'fails': bool(fails), 'what': fails, 'impl': impl}
     if 'single' in inp:
         case = inp['single']
         kind, dname, pyc, dry, faults, dir_exists, dest = case
